@@ -68,7 +68,7 @@ class Check(Prop):
     WANT = ("ti",)
     SHARDS = 4
     RULE = ("cases = (program, output mode); programs: golden corpus programs, grammar-generated programs and programs built for ties "
-            "(equal method names in several classes, one class name in two namespaces, reopened classes, many call sites); modes: plain, "
+            "(equal method names in several classes, one class name in two namespaces, reopened classes, many call sites) and C10's narrowing programs (several variables narrowed in one conditional); modes: plain, "
             "-i, --hover/--suggest/--define --row=N, --llm-nav, --llm-nav --all, --llm-nav --target=X, --llm-define, --llm-define "
             "--class=X, --llm-class, --extends --class=X. Each case is run k times (quick 4, thorough 8) on the real guard-off binary in "
             "separate processes, cycling GOMAXPROCS in {1,2,4,16} and GOGC in {off,1,100}; every process gets fresh map-iteration "
@@ -104,7 +104,12 @@ class Check(Prop):
 
         @st.composite
         def case(draw):
-            kind = draw(st.integers(0, 9))
+            kind = draw(st.integers(0, 11))
+            if kind >= 10:
+                # conditionals that narrow two variables at once (&& chains, elsif on another variable): map-ordered state
+                from .c10 import narrowing_program
+                np_ = draw(narrowing_program())
+                return {"src": "\n".join(np_["lines"]) + "\n", "flags": draw(st.sampled_from([[], ["-i"]])), "origin": "narrowing"}
             if kind < 5:
                 t = draw(tie_program())
                 src, classes, methods = t["src"], t["classes"], t["methods"]
